@@ -25,6 +25,8 @@ import vlib
 BACKENDS = ["epoll", "poll", "select"]
 REUSE = ["fresh", "idle", "busy_earlier", "busy_later", "tcp_idle"]
 PHASES = ["timeout", "wait", "inwait", "woken", "process"]
+LONGSLEEP = ["longsleep1200", "longsleep2300"]
+LONG_TOLERANCE_MS = 300      # completion of a longsleep request: budget + this
 ETIMEOUT = 12
 
 # what EvLoop(AsCoded) says: the event thread has computed its sleep (phases wait /
@@ -86,6 +88,8 @@ def run_threaded(ctx):
     # the loop computes its sleep when the earliest deadline has already passed (it was held
     # before ares_timeout() until then): an expired deadline must not read as "no deadline"
     combos += [(b, "overdue", "timeout") for b in BACKENDS]
+    # one long planned sleep (>= 1 s: whole seconds and a sub-second part), nothing else happening
+    combos += [(b, r, "any") for b in BACKENDS for r in LONGSLEEP]
     ctx.log("C07b: %d scenarios (backend x reuse x phase), silent server" % len(combos))
     results = thrlib.pmap(lambda c: scenario(exe, ctx, *c), combos, workers=8)
 
@@ -115,6 +119,8 @@ def run_threaded(ctx):
             suspects.append((j, "never"))
         elif j["cbcount"] != 1 or j["status"] != ETIMEOUT:
             suspects.append((j, "wrong_result"))
+        elif r in LONGSLEEP and j["elapsed_ms"] > j["budget_ms"] + LONG_TOLERANCE_MS:
+            suspects.append((j, "overslept"))
     observed_never = set()
     if len(suspects) > 12:
         # something is badly broken: confirming a dozen is enough
@@ -126,7 +132,8 @@ def run_threaded(ctx):
         # a rejection counts only if it reproduces
         again = (j2.get("result") in ("hang", "crash")) or (j2.get("result") == "c07" and j2["setup_ok"] and (
             (what == "never" and not j2["completed"]) or
-            (what == "wrong_result" and (j2["cbcount"] != 1 or j2["status"] != ETIMEOUT))))
+            (what == "wrong_result" and (j2["cbcount"] != 1 or j2["status"] != ETIMEOUT)) or
+            (what == "overslept" and j2["completed"] and j2["elapsed_ms"] > j2["budget_ms"] + LONG_TOLERANCE_MS)))
         if not again:
             ctx.notes.setdefault("unreproduced", []).append({"scenario": list(j["key"]), "what": what})
             continue
@@ -138,6 +145,11 @@ def run_threaded(ctx):
                     "0 = unlimited): no callback within %d ms (retry budget %d ms); after a manual wake-up of the event "
                     "thread the request %s" % (b, r, p, j["wait_tmo_at_send"], j["limit_ms"], j["budget_ms"],
                                                "timed out normally" if j["after_kick"] else "still did not complete"))
+        elif what == "overslept":
+            sig = "c07.evthread.%s.overslept.%s" % (r, p)
+            text = ("backend %s: a single request with timeout %d ms and one try, silent server, no other activity, got its "
+                    "ETIMEOUT after %d ms (and %d ms on the re-run); tolerance %d ms" %
+                    (b, j["budget_ms"], j["elapsed_ms"], j2["elapsed_ms"], LONG_TOLERANCE_MS))
         elif what == "crash":
             sig = "c07.evthread.%s.crash.%s" % (r, p)
             text = "scenario %s: harness process died (rc=%s):\n%s" % (j["key"], j.get("rc"), j.get("stderr"))
@@ -169,13 +181,15 @@ def run_threaded(ctx):
         elif rule == "c07.outwait.late":
             observed_late.add((r, p))
             sig = "c07.evthread.%s.late.%s" % (r, p)
+        elif rule == "c07.outwait.overslept":
+            sig = "c07.evthread.%s.overslept.%s" % (r, p)
         else:
             sig = "c07.trace.%s" % rule
         if (sig, b) in seen:
             continue
         seen.add((sig, b))
-        if rule == "c07.outwait.late":
-            # reproduce before reporting
+        if rule in ("c07.outwait.late", "c07.outwait.overslept"):
+            # observed time is involved: reproduce before reporting
             j2 = scenario(exe, ctx, b, r, p, attempt=3)
             n2, v2 = thrlib.validate_traces(ctx, [j2["trace"]], "c07_retry_%s_%s_%s" % (b, r, p))
             if not any(x[0] == rule for x in v2):
